@@ -139,7 +139,7 @@ LookupCase(tz) ==
    \* the reader has to step over; they do not enter the lookup
    file |-> [ver |-> tz.ver, trans |-> [i \in 1..Len(tz.trans) |-> <<tz.trans[i].t[1], tz.trans[i].t[2], tz.trans[i].idx>>],
              types |-> tz.types, footer |-> FooterText(tz.footer),
-             leaps |-> (Len(tz.trans) + Len(tz.types) + tz.ver) % 4, ind |-> (Len(tz.trans) + tz.ver) % 2 = 0],
+             leaps |-> (Len(tz.trans) + Len(tz.types) + tz.ver) % 4, ind |-> (Len(tz.trans) + tz.ver + Len(tz.types)) % 4],
    ts |-> ts,
    exp |-> <<[k |-> "ok", offs |-> [i \in 1..Len(ts) |-> LET a == Lookup(tz, ts[i]) IN IF a.any THEN "any" ELSE a.off]]>>]
 
